@@ -547,7 +547,7 @@ class RewriteSim:
         return [("episodes", 4000 if tier == "quick" else 200000)]
 
     def batch_size(self, stratum):
-        return 100
+        return 50
 
     def new_world(self, cfg, res):
         return World(cfg, res)
